@@ -119,6 +119,29 @@ def run(ctx):
     rule_table_masks(ctx)
 
 
+def rule_keyed_assignment(ctx, R):
+    """the rows of the merged frame come in the order of the characteristic table, the transformers in the order of their own table:
+    a column of the merged frame may reach the transformers only through a lookup keyed by (id, step)"""
+    n = 0
+    for fn in ("_get_vk_values_from_table", "_calc_tap_from_dataframe"):
+        fi = ctx.repo.func(f"{BB}:{fn}")
+        for st in ast.walk(fi.node):
+            if not isinstance(st, ast.Assign):
+                continue
+            cols = [x for x in ast.walk(st.value) if isinstance(x, ast.Subscript) and isinstance(x.value, ast.Name) and x.value.id == "filtered_df"]
+            if not cols:
+                continue
+            n += 1
+            v = st.value
+            keyed = isinstance(v, ast.Call) and isinstance(v.func, ast.Name) and v.func.id == "dict" and "zip(" in ast.unparse(v)
+            ctx.ob(R, f"{BB}::{fn}::merged-column:{norm(st.targets[0], 30)}", keyed,
+                   f"{norm(st.targets[0], 30)} is a lookup keyed by the merge keys" if keyed else
+                   f"`{norm(st, 100)}` takes a column of the merged frame positionally: its rows are in characteristic-table order, not in transformer "
+                   "order - permuting the table rows (or the transformers) changes which transformer gets which value", fi.loc(st))
+    if n < 3:
+        ctx.fail(f"KEYED: only {n} uses of the merged characteristic frame found (confirmed: 3 mappings)")
+
+
 def rule_table_masks(ctx):
     """which transformers go through the table and with which sign"""
     from ppsa.astutil import names_in
@@ -163,6 +186,7 @@ def rule_table_masks(ctx):
                    f"`{norm(st, 90)}` does not depend on `direction`: a tap changer on the lv side gets the table angle with the hv sign", fi.loc(st))
     if k < 1:
         ctx.fail("_calc_tap_from_dataframe: assignment of the table shift not found")
+    rule_keyed_assignment(ctx, R)
     fv = ctx.repo.func(f"{BB}:_get_vk_values_from_table")
     ms = [n for n in ast.walk(fv.node) if isinstance(n, ast.Assign) and len(n.targets) == 1 and isinstance(n.targets[0], ast.Name) and n.targets[0].id == "mask"]
     if not ms:
@@ -179,6 +203,7 @@ def variants(repo):
     bb = "pandapower/build_branch.py"
     V = Variant
     return [
+        V("vk taken in table order", bb, in_function("_get_vk_values_from_table", lambda s: s.replace("            vk_new = [vk_mapping.get(key, 1) for key in zip(cleaned_id_characteristic, cleaned_step)]\n", "            vk_new = filtered_df[vk_var].values\n", 1)), "merged-column"),
         V("ideal formula also for table transformers", bb, replace_once('tap_ideal = np.logical_and(tap_changer_type == "Ideal", tap_no_table)', 'tap_ideal = tap_changer_type == "Ideal"'), "TABLE-MASK"),
         V("table angle without the lv sign", bb, in_function("_calc_tap_from_dataframe", lambda s: s.replace("                        shift = [-shift_mapping.get(key, 1) for key in id_step]", "                        shift = [shift_mapping.get(key, 1) for key in id_step]", 1).replace("                    if direction == 1:\n                        ratio = [voltage_mapping.get(key, 1) for key in id_step]\n                        shift = [shift_mapping.get(key, 1) for key in id_step]\n                    else:\n                        ratio = [voltage_mapping.get(key, 1) for key in id_step]\n                        shift = [shift_mapping.get(key, 1) for key in id_step]\n", "                    ratio = [voltage_mapping.get(key, 1) for key in id_step]\n                    shift = [shift_mapping.get(key, 1) for key in id_step]\n", 1)), "table-shift"),
         V("vk lookup skipped at the neutral position", bb, in_function("_get_vk_values_from_table", lambda s: s.replace("            mask = tap_dependency_table\n", "            mask = tap_dependency_table & (tap_pos != get_trafo_values(trafo_df, \"tap_neutral\"))\n", 1)), "_get_vk_values_from_table::mask"),
